@@ -676,15 +676,21 @@ func (p *Proxy) Unregister(info ServerInfo) bool {
 // DisconnectAll disconnects all current connected players
 // in parallel and waits until all players have been disconnected.
 func (p *Proxy) DisconnectAll(reason component.Component) {
+	// Snapshot the players under the lock: the map itself must not be iterated
+	// (nor its length relied upon) after unlocking, since disconnecting players
+	// unregisters them concurrently.
 	p.muP.RLock()
-	players := p.playerIDs
-	p.muP.RUnlock()
 	verifhook.Point("list.disconnectall.iter")
+	players := make([]*connectedPlayer, 0, len(p.playerIDs))
+	for _, player := range p.playerIDs {
+		verifhook.Point("list.disconnectall.step")
+		players = append(players, player)
+	}
+	p.muP.RUnlock()
 
 	var wg sync.WaitGroup
 	wg.Add(len(players))
 	for _, p := range players {
-		verifhook.Point("list.disconnectall.step")
 		go func(p *connectedPlayer) {
 			defer wg.Done()
 			p.Disconnect(reason)
@@ -806,11 +812,10 @@ func (p *Proxy) PlayerCount() int {
 // Players returns all players on the proxy.
 func (p *Proxy) Players() []Player {
 	p.muP.RLock()
-	playerIDs := p.playerIDs
-	p.muP.RUnlock()
+	defer p.muP.RUnlock()
 	verifhook.Point("list.players.iter")
-	pls := make([]Player, 0, len(playerIDs))
-	for _, player := range playerIDs {
+	pls := make([]Player, 0, len(p.playerIDs))
+	for _, player := range p.playerIDs {
 		verifhook.Point("list.players.step")
 		pls = append(pls, player)
 	}
